@@ -1271,6 +1271,15 @@ func (o *Origin) call(c *ssa.Call) *Term {
 		args = append(args, o.argAt(a, c))
 	}
 	if b, ok := cc.Value.(*ssa.Builtin); ok {
+		// append(<empty fresh slice>, X...) is a copy of X: the same value (make([]byte, 0), nil, []T{} as destination)
+		if b.Name() == "append" && len(args) == 2 {
+			d := args[0]
+			empty := d.Op == "const" && d.Name == "nil" || d.Op == "slicelit" && len(d.Args) == 0 ||
+				d.Op == "makeslice" && len(d.Args) == 1 && d.Args[0].Op == "const" && d.Args[0].Name == "0"
+			if empty {
+				return args[1]
+			}
+		}
 		return &Term{Op: "call", Name: "builtin:" + b.Name(), Args: args}
 	}
 	callee := cc.StaticCallee()
